@@ -28,8 +28,8 @@ iovec references. -/
 def FillPrivate (w : World) (op : WOp) : Prop :=
   ∀ X b bs, op = .backfill X b bs → ∀ j, j ≠ X → NoShare w X j
 
-/-- The two side conditions of one step. -/
-def StepOk (w : World) (op : WOp) : Prop := PushFresh w op ∧ FillPrivate w op
+/-- The side condition of one step. -/
+abbrev StepOk (w : World) (op : WOp) : Prop := FillPrivate w op
 
 /-! ### Bookkeeping on handles the step neither names nor creates -/
 
@@ -114,12 +114,12 @@ theorem pw_ok_congr (s s2 : PW) (op : WOp) (r : WRet) (ht : s.toks = s2.toks)
 /-! ### One step, the named handle -/
 
 theorem target_all {g : GW} {op : WOp} {w' : World} {caps : Nat → Nat} {i : Nat} {v : Iov} (hg : GReach g.w caps)
-    (h1 : g.w.step op = some w') (hi : op.iovTarget = some i) (hv : g.w.iov i = some v) (hinv : IovInv g.w v)
-    (hpf : PushFresh g.w op) : TargetGoal g op w' i := by
+    (h1 : g.w.step op = some w') (hi : op.iovTarget = some i) (hv : g.w.iov i = some v) (hinv : W.IovInv g.w v) :
+    TargetGoal g op w' i := by
   cases op <;> simp only [WOp.iovTarget, Option.some.injEq, reduceCtorEq] at hi <;> subst hi <;>
     first
       | (refine target_oplike h1 hv hinv ?_; simp; done)
-      | (refine target_other hg h1 hv hinv hpf ?_; simp; done)
+      | (refine target_other hg h1 hv hinv ?_; simp; done)
 
 /-- A call on a handle that is not live succeeds only in four degenerate cases; the returned value then
 satisfies the pipe-level side condition whatever the reference holds at that handle. -/
@@ -164,6 +164,35 @@ theorem ok_dead {g : GW} {op : WOp} {w' : World} (s : PW) {i : Nat} (h1 : g.w.st
 
 /-! ### One step, all handles -/
 
+/-- The invariant of every live iovec is preserved by EVERY step (no side condition). -/
+theorem allInv_step {w w' : World} {caps : Nat → Nat} {op : WOp} (hg : GReach w caps) (hall : AllInv w)
+    (h1 : w.step op = some w') : AllInv w' := by
+  intro j x hx
+  obtain ⟨hlen, _⟩ := step_book h1
+  by_cases hj : op.iovTarget = some j
+  · cases hv : w.iov j with
+    | none => rw [step_target_dead h1 hj hv] at hx; cases hx
+    | some v =>
+      exact (target_all (g := ⟨w, fun _ => [], fun _ => 0⟩) hg h1 hj hv (hall j v hv)).1 x hx
+  · by_cases hlt : j < w.iovs.length
+    · rw [step_frame_iov_eq h1 hlt hj] at hx
+      exact (frame_other_inv h1 hx hj (hall j x hx)).2
+    · have hjl := iov_lt_of_some hx
+      rw [hlen] at hjl
+      have hc : op.creates = true := by
+        cases hcc : op.creates with
+        | true => rfl
+        | false => rw [hcc] at hjl; simp at hjl; omega
+      rw [hc] at hjl
+      have hjn : j = w.iovs.length := by simp at hjl; omega
+      subst hjn
+      exact (created_goal (g := ⟨w, fun _ => [], fun _ => 0⟩) hg hall h1 hc).1 x hx
+
+theorem GReach.allInv {w : World} {caps : Nat → Nat} (h : GReach w caps) : AllInv w := by
+  induction h with
+  | init pol tun => exact allInv_init pol tun
+  | @step w w' caps caps' op hg hs _ _ ih => exact allInv_step hg ih hs
+
 theorem gstep_rel {g g' : GW} {op : WOp} {r : WRet} {caps : Nat → Nat} {s : PW} (hg : GReach g.w caps)
     (hall : AllInv g.w) (hok : StepOk g.w op) (hrel : Rel g s) (h : g.step op = some (g', r)) :
     AllInv g'.w ∧ Rel g' (s.step op r) ∧ s.ok op r := by
@@ -171,14 +200,14 @@ theorem gstep_rel {g g' : GW} {op : WOp} {r : WRet} {caps : Nat → Nat} {s : PW
   obtain ⟨hlen, hbrefs⟩ := step_book h1
   -- the three kinds of live handle of the new world
   have key : ∀ j x, w'.iov j = some x →
-      IovInv w' x ∧ absW ⟨w', g.ghost' op, g.nid' op⟩ j = (s.step op (g.w.ret op)).pipe j := by
+      W.IovInv w' x ∧ absW ⟨w', g.ghost' op, g.nid' op⟩ j = (s.step op (g.w.ret op)).pipe j := by
     intro j x hx
     by_cases hj : op.iovTarget = some j
     · -- named
       cases hv : g.w.iov j with
       | none => rw [step_target_dead h1 hj hv] at hx; cases hx
       | some v =>
-        obtain ⟨t1, t2, _⟩ := target_all hg h1 hj hv (hall j v hv) hok.1
+        obtain ⟨t1, t2, _⟩ := target_all hg h1 hj hv (hall j v hv)
         refine ⟨t1 x hx, ?_⟩
         rw [t2]
         apply pw_step_congr _ _ _ _ _ hrel.n.symm hrel.toks.symm (hrel.pipe j v hv)
@@ -189,7 +218,7 @@ theorem gstep_rel {g g' : GW} {op : WOp} {r : WRet} {caps : Nat → Nat} {s : PW
       · -- neither named nor created
         have heq := step_frame_iov_eq h1 hlt hj
         rw [heq] at hx
-        have hff : FillFree g.w op j := fun X b bs e hXj => hok.2 X b bs e j (fun e' => hXj e'.symm)
+        have hff : FillFree g.w op j := fun X b bs e hXj => hok X b bs e j (fun e' => hXj e'.symm)
         obtain ⟨f1, f2, f3⟩ := frame_other hg h1 hx hj (hall j x hx) hff
         refine ⟨f2, ?_⟩
         have hne : j ≠ g.w.iovs.length := Nat.ne_of_lt hlt
@@ -255,7 +284,7 @@ theorem gstep_rel {g g' : GW} {op : WOp} {r : WRet} {caps : Nat → Nat} {s : PW
       cases hv : g.w.iov i with
       | none => exact ok_dead s h1 hi hv hrel.toks
       | some v =>
-        obtain ⟨_, _, t3⟩ := target_all hg h1 hi hv (hall i v hv) hok.1
+        obtain ⟨_, _, t3⟩ := target_all hg h1 hi hv (hall i v hv)
         refine pw_ok_congr s g.pw op _ hrel.toks ?_ t3
         intro i' hi'
         rw [hi] at hi'; cases hi'
